@@ -8,7 +8,7 @@
      * drop_in_place runs the destructor of a live value (recording its id) and may start unwinding;
        dropping a dropped value is undefined behaviour (Stuck);
      * a `let g = Guard(x)` of a local struct with a Drop impl is LIVE until it is moved (drop(g),
-       zmem::forget(g)); leaving its scope — normally or by unwinding — runs its Drop body, last declared
+       mem::forget(g)); leaving its scope — normally or by unwinding — runs its Drop body, last declared
        first; a panic in a destructor that runs during unwinding aborts;
      * no statement runs once the function is unwinding (only the guards do).
    Calls to other translated functions and the Drop bodies of guards are resolved through tables, so the
@@ -37,19 +37,29 @@ Inductive zexp : Type :=
 | EAdd (a b : zexp)
 | ESub (a b : zexp).                  (* a - b: overflow is a panic in Rust; here no value *)
 
+(* conditions on the element type: the two facts the functions ask about *)
+Inductive zcond : Type :=
+| CNeedsDrop                          (* core::mem::needs_drop::<T>() *)
+| CSizeZero                           (* size_of::<T>() == 0 *)
+| CNot (c : zcond)
+| CAnd (a b : zcond)
+| COr (a b : zcond).
+
 Inductive zstmt : Type :=
 | SLet (x : string) (e : zexp)
 | SLetGuard (x : string) (gty : string) (e : zexp)   (* let x = Guard(e), Guard a local struct with a Drop impl *)
 | SDropInPlace (e : zexp)                            (* core::ptr::drop_in_place(e) *)
 | SDrop (x : string)                                 (* drop(x) *)
-| SForget (x : string)                               (* core::zmem::forget(x) *)
+| SForget (x : string)                               (* core::mem::forget(x) *)
 | SWriteBytes (p : zexp) (byte : N) (n : zexp)       (* core::ptr::write_bytes(p, byte, n) *)
-| SIfNeedsDrop (neg : bool) (a b : list zstmt)       (* if [!]core::zmem::needs_drop::<T>() { a } else { b } *)
+| SIf (c : zcond) (a b : list zstmt)                 (* if c { a } else { b } *)
 | SForEach (s : zexp) (f : string)                   (* s.iter_mut().for_each(f) / for x in s { f(x) } *)
 | SCall (f : string) (e : zexp)                      (* f(e) *)
 | SBlock (b : list zstmt).                           (* { .. } / unsafe { .. } *)
 
-Record zst : Type := mkZ { z_mem : zmem; z_env : list (string * zval); z_live : list (option string) }.
+(* z_live: the guards that are still live, most recent first, each with the value it was bound to (a later
+   `let` of the same name shadows the variable, not the guard); None marks the start of a scope *)
+Record zst : Type := mkZ { z_mem : zmem; z_env : list (string * zval); z_live : list (option (string * zval)) }.
 
 Definition set_status (s : zstatus) (m : zmem) : zmem := mkZmem (cells m) (dropped m) s.
 Definition stuck (why : string) (m : zmem) : zmem := set_status (Stuck why) m.
@@ -81,7 +91,17 @@ Definition set_range (i n : nat) (c : cell) (l : list cell) : list cell :=
 
 Section Exec.
   Variable panics : nat -> bool.        (* does the destructor of value [id] panic *)
-  Variable nd : bool.                   (* core::zmem::needs_drop::<T>() *)
+  Variable nd : bool.                   (* core::mem::needs_drop::<T>() *)
+  Variable zsz : bool.                  (* size_of::<T>() == 0 *)
+
+  Fixpoint ceval (c : zcond) : bool :=
+    match c with
+    | CNeedsDrop => nd
+    | CSizeZero => zsz
+    | CNot c => negb (ceval c)
+    | CAnd a b => ceval a && ceval b
+    | COr a b => ceval a || ceval b
+    end.
   Variable gdrop : string -> zval -> zmem -> zmem.     (* Drop body of a guard type, run on its payload *)
   Variable call : string -> zval -> zmem -> zmem.      (* other functions of the module *)
 
@@ -120,24 +140,25 @@ Section Exec.
     end.
 
   (* leave a scope: the guards declared in it that are still live are dropped, last declared first *)
-  Fixpoint close_scope (env : list (string * zval)) (live : list (option string)) (m : zmem) : list (option string) * zmem :=
+  Fixpoint close_scope (live : list (option (string * zval))) (m : zmem) : list (option (string * zval)) * zmem :=
     match live with
     | [] => ([], m)
     | None :: r => (r, m)
-    | Some x :: r => close_scope env r (run_guard (lookup env x) m)
+    | Some (_, v) :: r => close_scope r (run_guard v m)
     end.
 
-  Fixpoint remove_live (x : string) (live : list (option string)) : list (option string) :=
+  Fixpoint remove_live (x : string) (live : list (option (string * zval))) : list (option (string * zval)) :=
     match live with
     | [] => []
-    | Some y :: r => if String.eqb x y then r else Some y :: remove_live x r
+    | Some (y, v) :: r => if String.eqb x y then r else Some (y, v) :: remove_live x r
     | None :: r => None :: remove_live x r
     end.
-  Fixpoint is_live (x : string) (live : list (option string)) : bool :=
+  (* the most recent live guard bound to the name x *)
+  Fixpoint find_live (x : string) (live : list (option (string * zval))) : option zval :=
     match live with
-    | [] => false
-    | Some y :: r => String.eqb x y || is_live x r
-    | None :: r => is_live x r
+    | [] => None
+    | Some (y, v) :: r => if String.eqb x y then Some v else find_live x r
+    | None :: r => find_live x r
     end.
 
   Definition with_mem (z : zst) (m : zmem) : zst := mkZ m (z_env z) (z_live z).
@@ -166,31 +187,34 @@ Section Exec.
 
   Definition in_scope (run : zst -> zst) (z : zst) : zst :=
     let z1 := run (mkZ (z_mem z) (z_env z) (None :: z_live z)) in
-    let '(live', m') := close_scope (z_env z1) (z_live z1) (z_mem z1) in
+    let '(live', m') := close_scope (z_live z1) (z_mem z1) in
     mkZ m' (z_env z) live'.
 
   Fixpoint exec (s : zstmt) (z : zst) : zst :=
     if negb (running (z_mem z)) then z else
     match s with
     | SLet x e => mkZ (z_mem z) ((x, eval (z_env z) e) :: z_env z) (z_live z)
-    | SLetGuard x gty e => mkZ (z_mem z) ((x, VGuard gty (eval (z_env z) e)) :: z_env z) (Some x :: z_live z)
+    | SLetGuard x gty e =>
+        let v := VGuard gty (eval (z_env z) e) in
+        mkZ (z_mem z) ((x, v) :: z_env z) (Some (x, v) :: z_live z)
     | SDropInPlace e =>
         match eval (z_env z) e with
         | VPtr i => with_mem z (drop_cell i (z_mem z))
         | _ => with_mem z (stuck "drop_in_place of something that is not a pointer" (z_mem z))
         end
     | SDrop x =>
-        if is_live x (z_live z)
-        then mkZ (run_guard (lookup (z_env z) x) (z_mem z)) (z_env z) (remove_live x (z_live z))
-        else z
+        match find_live x (z_live z) with
+        | Some v => mkZ (run_guard v (z_mem z)) (z_env z) (remove_live x (z_live z))
+        | None => z          (* not a guard: nothing this model tracks *)
+        end
     | SForget x => mkZ (z_mem z) (z_env z) (remove_live x (z_live z))
     | SWriteBytes p b n =>
         match eval (z_env z) p, eval (z_env z) n with
         | VPtr i, VNum k => with_mem z (write_cells i k b (z_mem z))
         | _, _ => with_mem z (stuck "write_bytes of something that is not a pointer and a count" (z_mem z))
         end
-    | SIfNeedsDrop neg a b =>
-        if xorb nd neg
+    | SIf c a b =>
+        if ceval c
         then in_scope (fun z0 => fold_left (fun z1 s1 => exec s1 z1) a z0) z
         else in_scope (fun z0 => fold_left (fun z1 s1 => exec s1 z1) b z0) z
     | SForEach e f =>
@@ -206,8 +230,8 @@ Section Exec.
     z_mem (in_scope (fun z0 => fold_left (fun z1 s1 => exec s1 z1) body z0) (mkZ m [(param, arg)] [])).
 End Exec.
 
-(* a translated function: destructor oracle, needs_drop::<T>(), argument, memory before -> memory after *)
-Definition zfun : Type := (nat -> bool) -> bool -> zval -> zmem -> zmem.
+(* a translated function: destructor oracle, needs_drop::<T>(), size_of::<T>() == 0, argument, memory before -> memory after *)
+Definition zfun : Type := (nat -> bool) -> bool -> bool -> zval -> zmem -> zmem.
 
 Fixpoint assoc {X} (k : string) (l : list (string * X)) : option X :=
   match l with
@@ -221,15 +245,15 @@ Definition no_call : string -> zval -> zmem -> zmem := fun _ _ m => stuck "call 
    calls: the translated functions this one may call *)
 Definition zfun_of (guards : list (string * list zstmt)) (calls : list (string * zfun))
                    (param : string) (body : list zstmt) : zfun :=
-  fun panics nd arg m =>
+  fun panics nd zsz arg m =>
     let gdrop gty p m0 :=
       match assoc gty guards with
-      | Some gbody => exec_body panics nd no_call no_call "self" gbody (VGuard gty p) m0
+      | Some gbody => exec_body panics nd zsz no_call no_call "self" gbody (VGuard gty p) m0
       | None => stuck "drop of an unknown guard type" m0
       end in
     let call f v m0 :=
       match assoc f calls with
-      | Some g => g panics nd v m0
+      | Some g => g panics nd zsz v m0
       | None => stuck "call of an unknown function" m0
       end in
-    exec_body panics nd gdrop call param body arg m.
+    exec_body panics nd zsz gdrop call param body arg m.
